@@ -12,6 +12,7 @@ pub mod vspec {
 pub use crate::vfield::*;
 pub use crate::vgroup::*;
 pub use crate::vorder::*;
+pub use crate::vinterp::*;
 pub use crate::vstdx::*;
 verus! {
 //@module_serves ALL
@@ -101,6 +102,8 @@ pub proof fn use_id_order<C: Ciphersuite>()
 pub uninterp spec fn spec_id_cmp<C: Ciphersuite>(a: Identifier<C>, b: Identifier<C>) -> core::cmp::Ordering;
 pub axiom fn ax_identifier_ord<C: Ciphersuite>()
     ensures vstd::laws_cmp::obeys_cmp::<Identifier<C>>(), lt_laws::<Identifier<C>>();
+pub axiom fn ax_identifier_total<C: Ciphersuite>(a: Identifier<C>, b: Identifier<C>)
+    ensures a == b || lt(a, b) || lt(b, a);
 
 
 // ---------------------------------------------------------------------------------------------------
